@@ -51,6 +51,33 @@ def r1_scoping_set(m, ctx, blocks):
     return r
 
 
+
+def _same_node_guard(func, loop, var):
+    """the loop `for <var> in <children>` keeps an element (break) only under a test with the conjuncts `<var>.node is <p>` and
+    `<p> is not None`, p a parameter of the function: the table re-entered is the one made for the same start-statement object
+    (a region read again after backtracking), never the table of another unit of the same name"""
+    if not isinstance(loop, ast.For):
+        return False
+    params = set(A.param_names(func)[1:])
+    exits = [n for n in ast.walk(loop) if isinstance(n, ast.If) and any(isinstance(b, ast.Break) for b in n.body)]
+    if len(exits) != 1 or any(isinstance(n, ast.Break) for s_ in loop.body if not isinstance(s_, ast.If) for n in ast.walk(s_)):
+        return False
+    test = exits[0].test
+    conj = test.values if isinstance(test, ast.BoolOp) and isinstance(test.op, ast.And) else [test]
+    same, notnone = None, set()
+    for c in conj:
+        if isinstance(c, ast.Compare) and len(c.ops) == 1 and isinstance(c.ops[0], ast.Is):
+            a, b = c.left, c.comparators[0]
+            for x, y in ((a, b), (b, a)):
+                if isinstance(x, ast.Attribute) and isinstance(x.value, ast.Name) and x.value.id == var and x.attr in ("node", "_node") \
+                        and isinstance(y, ast.Name) and y.id in params:
+                    same = y.id
+        if isinstance(c, ast.Compare) and len(c.ops) == 1 and isinstance(c.ops[0], ast.IsNot) and isinstance(c.left, ast.Name) \
+                and A.const(c.comparators[0], 1) is None:
+            notnone.add(c.left.id)
+    return same is not None and same in notnone
+
+
 def r3_lookup(m):
     r = RuleResult("C16.R3", "symbol lookup consults the scope itself, its used modules, then only its ancestors; a new scope is nested under the current one")
     r.floor = 3
@@ -106,8 +133,12 @@ def r3_lookup(m):
             if isinstance(v, ast.Name):
                 srcs = [n.value for n in A.body_nodes(es.node) if isinstance(n, ast.Assign) and any(A.text(t) == v.id for t in n.targets)]
                 loops = [n for n in A.body_nodes(es.node) if isinstance(n, (ast.For, ast.comprehension)) and v.id in A.assigned_names(n.target)]
-                if loops:
+                if loops and not _same_node_guard(es.node, loops[0], v.id):
                     stale = (cd, "`%s` can be an element of `%s`" % (v.id, A.text(loops[0].iter)[:40]))
+                if loops and stale is None:
+                    # the element is kept only when it is the table of this very start statement; otherwise the loop's else branch
+                    # (or the code behind it) constructs the table: the construction is what remains to be checked
+                    srcs = [sv_ for sv_ in srcs if isinstance(sv_, ast.Call)]
             for sv in srcs:
                 fresh = isinstance(sv, ast.Call) and (A.text(sv.func) in ("SymbolTable", "self.add") or A.text(sv.func).endswith(".add"))
                 if not fresh and isinstance(sv, ast.Call) and A.text(sv.func) == "self.lookup":
